@@ -9,6 +9,7 @@ Decided:
          file inside the command map OSError/UnicodeDecodeError to the "unreadable input" code
   R19.3  the file echoed is selected by the auto report id; JSON report_id := sha256(input bytes)
   R19.5  the JSON rendering returns the keys data / columns
+  R19.6  the JSON and the CSV writer give up under the same conditions (sibling agreement)
 Not decided: JSON well-formedness of arbitrary content (json.dumps is trusted), byte equality of two runs.
 """
 from __future__ import annotations
@@ -345,6 +346,26 @@ def r19_3_spool(ctx: Ctx, entry):
         raise AnchorMissing("plan.report: stdin spool (os.fdopen) not found")
 
 
+def r19_6(ctx: Ctx):
+    """Sibling agreement of the two writers the command can be asked for: _generate_json and _generate_csv give up (return without
+    writing) under the same conditions, modulo the format name -- otherwise one format fails where the other succeeds."""
+    repo = ctx.repo
+    sigs = {}
+    for fmt in ("json", "csv"):
+        f = repo.func(f"Report._generate_{fmt}")
+        conds = []
+        for i in own_nodes(f):
+            if isinstance(i, ast.If) and any(isinstance(x, ast.Return) for x in i.body):
+                conds.append(norm(i.test).replace(fmt, "FMT"))
+        sigs[fmt] = (f, sorted(conds))
+    ok = sigs["json"][1] == sigs["csv"][1] and bool(sigs["json"][1])
+    ctx.ob("R19.6", f"writers give up under the same conditions: json {sigs['json'][1]} / csv {sigs['csv'][1]}", sigs["csv"][0], ok,
+           "both formats are written for the same contents" if ok else
+           "one writer returns without writing where the other writes: `plan report --csv` and `plan report` disagree on success for the same project "
+           "(a header-only table is still a report)",
+           key="R19.6|Report._generate_csv|early returns")
+
+
 def r19_5(ctx: Ctx):
     tj = ctx.repo.func("ReportTable.to_json")
     keys = set()
@@ -365,6 +386,7 @@ def run(ctx: Ctx):
     r19_3(ctx, entry)
     r19_3_spool(ctx, entry)
     r19_5(ctx)
+    r19_6(ctx)
     ctx.stats["branches_decided_by_constants"] = len(set(pr.pruned_branches))
     ctx.floor("R19.1", 5)
     ctx.floor("R19.2", 10)
